@@ -1103,6 +1103,12 @@ func (c *Conn) readHandshake(transcript transcriptHash) (any, error) {
 		// those messages.
 		maxHandshakeSize = maxHandshakeCertificateMsg
 	}
+	// [uTLS] a CompressedCertificate message (RFC 8879) carries a Certificate
+	// message and gets the same limit: a valid encoding of a large chain may
+	// well exceed maxHandshake.
+	if c.haveVers && c.isClient && data[0] == utlsTypeCompressedCertificate {
+		maxHandshakeSize = maxHandshakeCertificateMsg
+	}
 
 	n := int(data[1])<<16 | int(data[2])<<8 | int(data[3])
 	if n > maxHandshakeSize {
